@@ -53,6 +53,9 @@ void w_gset_raw(uint64_t nulltable, uint64_t numFields, uint8_t* pdu, uint64_t f
 }
 
 /* 1 when this world stores the most significant byte first */
+/* data model of this world: sizeof(int), sizeof(long), sizeof(void*) as decimal digits */
+uint64_t w_world_model(void) { return (uint64_t)(sizeof(int) * 100 + sizeof(long) * 10 + sizeof(void*)); }
+
 uint64_t w_world_id(void)
 {
     uint32_t one = 1;
